@@ -312,4 +312,163 @@ theorem transfer_shape {c : Cfg} (hg : good c = true) {n : Nat} {v v' : VS} (hi 
     · intro x hx
       rw [r4, r3, o2 x (by omega), o1 x (by omega)]
 
+/-! ### nothing is pending right after a transfer -/
+
+theorem dMulTrunc_zero (b : Nat) : dMulTrunc 0 b = 0 := by
+  simp [dMulTrunc]
+
+theorem slashLoop_skip (v : VS) : ∀ (evs : List SlashEv) (rew sp st : Nat), (∀ e, e ∈ evs → e.period ≤ sp) →
+    v.slashLoop evs rew sp st = .ok (rew, sp, st) := by
+  intro evs
+  induction evs with
+  | nil => intro rew sp st _; rfl
+  | cons e es ih =>
+    intro rew sp st he
+    have h1 := he e (List.mem_cons_self ..)
+    unfold VS.slashLoop
+    rw [if_neg (by omega)]
+    exact ih _ _ _ (fun x hx => he x (List.mem_cons_of_mem _ hx))
+
+theorem chopRound_ge (x : Nat) : x / ONE ≤ chopRound x := by
+  unfold chopRound
+  dsimp only
+  (repeat' split) <;> omega
+
+theorem trunc_le_round (v : VS) (sh : Nat) : v.tokensFromSharesTrunc sh ≤ v.tokensFromShares sh := by
+  unfold VS.tokensFromSharesTrunc VS.tokensFromShares dQuoTrunc dQuo
+  exact chopRound_ge _
+
+/-- a delegator whose starting info is fresh — started after every slash event, at a record with the same cumulative
+ratio as the ending record, with a stake not above its current token worth — has exactly zero rewards -/
+theorem calcRewards_fresh {v : VS} {h' d sh ending : Nat} {si : SInfo} (hs : v.sinfo d = some si) (hh : si.height ≠ h')
+    (hstake : si.stake ≤ v.tokensFromShares sh) (hnew : ∀ e, e ∈ v.slashes → e.period ≤ si.period)
+    (hr : v.ratioAt si.period = v.ratioAt ending) (hle : si.period ≤ ending) :
+    v.calcRewards h' d sh ending = .ok 0 := by
+  unfold VS.calcRewards
+  rw [hs]
+  dsimp only
+  rw [if_neg hh]
+  rw [slashLoop_skip v _ 0 si.period si.stake (by
+    intro e hm
+    have hmem : e ∈ v.slashes := by
+      split at hm
+      · exact (List.mem_filter.mp hm).1
+      · cases hm
+    exact hnew e hmem)]
+  dsimp only
+  rw [if_neg (by omega)]
+  unfold VS.between
+  rw [if_neg (by omega), if_neg (by omega), hr, Nat.sub_self, dMulTrunc_zero]
+
+/-- `WithdrawDelegationRewards` when the rewards computed after ending the period are zero: succeeds and pays nothing -/
+theorem withdrawMsg_zero {n : Nat} {v : VS} (hi : RI n v) (hD : Dom v) {h d sh : Nat} {si : SInfo} (hd : d < n)
+    (hdel : v.del d = some sh) (hs : v.sinfo d = some si)
+    (hc : ∀ v1, v.incPeriod v.tokens = .ok (v1, v.period) → v1.calcRewards h d sh v.period = .ok 0) :
+    ∃ v', v.withdrawMsg h d = .ok (v', 0) := by
+  obtain ⟨v1, h1, i1, f1, p1, s1, e1, sf1⟩ := incPeriod_total hi v.tokens
+  have hs1 : v1.sinfo d = some si := by rw [s1]; exact hs
+  have hR := hc v1 h1
+  unfold VS.withdrawMsg VS.withdrawRewards
+  rw [hdel, hs]
+  dsimp only
+  rw [h1]
+  dsimp only
+  rw [hR]
+  dsimp only
+  have hpos := i1.refs_info_pos hd hs1
+  unfold VS.decRef
+  dsimp only
+  rw [if_neg hpos]
+  dsimp only
+  -- the re-initialisation
+  have hmin : min 0 v1.outstanding = 0 := Nat.zero_min _
+  have iD : RI n ({ ({ v1 with outstanding := v1.outstanding - min 0 v1.outstanding,
+                               paid := v1.paid + min 0 v1.outstanding / ONE,
+                               dust := v1.dust + min 0 v1.outstanding % ONE } : VS) with
+      refs := setAt v1.refs si.period (v1.refs si.period - 1), sinfo := setAt v1.sinfo d none } : VS) :=
+    i1.dropInfo hd hs1 rfl rfl rfl rfl rfl
+  have hsp := hi.sper d si hs
+  obtain ⟨v2, h2, _⟩ := initDelegation_total iD (h := h) (d := d) (sh := sh) hd
+    (by show v1.del d = some sh; rw [sf1.1]; exact hdel)
+    (by show setAt v1.sinfo d none d = none; simp [setAt])
+    (by
+      show setAt v1.refs si.period (v1.refs si.period - 1) (v1.period - 1) = 1
+      have ne : v1.period - 1 ≠ si.period := by omega
+      simp only [setAt, ne, if_false]
+      exact f1)
+  rw [h2]
+  simp [hmin]
+
+/-- **nothing pending.**  Right after a successful transfer between different accounts (any later height, no
+allocation or slash in between) each party's `WithdrawDelegationRewards` succeeds — here the SDK's stake sanity check
+cannot fire — and pays nothing: the transfer paid out everything that had accrued. -/
+theorem transfer_nothing_pending {c : Cfg} (hg : good c = true) {n : Nat} {v v' : VS} (hi : VInv n v) {h f t X rf rt : Nat}
+    {recv : Bool} (hf : f < n) (htn : t < n) (hne : f ≠ t) (ht : VS.transfer c v h f t X recv = .ok (v', rf, rt))
+    {d sh h' : Nat} (hd : d = f ∨ d = t) (hdel : v'.del d = some sh) (hh : h ≠ h') :
+    ∃ v'', v'.withdrawMsg h' d = .ok (v'', 0) := by
+  obtain ⟨fsh, hdf, hP, hcur, hrat, hst, hsf, _, _, hsl⟩ := transfer_shape hg hi hf htn hne ht
+  obtain ⟨fsh', hdf', _, _, htok', hsh', hdel'⟩ := transfer_del hg hne ht
+  rw [hdf] at hdf'; cases hdf'
+  -- the invariant of the final state
+  have hi' : VInv n v' := by
+    rcases transfer_total hg hi (h := h) (f := f) (t := t) (X := X) (recv := recv) hf htn with ⟨e, he, _⟩ | ⟨v2, a, b, hr, hv2⟩
+    · rw [he] at ht; cases ht
+    · rw [hr] at ht; cases ht; exact hv2
+  have hdn : d < n := by rcases hd with rfl | rfl <;> assumption
+  -- the party's starting info
+  have hinfo : ∃ si, v'.sinfo d = some si ∧ (si.period = v.period ∨ si.period = v.period + 1) ∧
+      si.stake = v'.tokensFromSharesTrunc sh ∧ si.height = h := by
+    rcases hd with rfl | rfl
+    · rw [hdel'] at hdel
+      simp only [setAt, hne, if_false, if_true] at hdel
+      by_cases hz : fsh - X = 0
+      · simp [hz] at hdel
+      · simp only [hz, if_false, Option.some.injEq] at hdel
+        subst hdel
+        rw [if_neg hz] at hsf
+        exact ⟨_, hsf, Or.inl rfl, rfl, rfl⟩
+    · rw [hdel'] at hdel
+      simp only [setAt, if_true, Option.some.injEq] at hdel
+      subst hdel
+      exact ⟨_, hst, Or.inr rfl, rfl, rfl⟩
+  obtain ⟨si, hs, hper, hstake, hheight⟩ := hinfo
+  apply withdrawMsg_zero hi'.ri hi'.dom hdn hdel hs
+  intro v1 h1
+  obtain ⟨c1, r1, p1, s1⟩ := incPeriod_shape h1
+  obtain ⟨v1', h1', i1, f1, _, _, e1, sf1⟩ := incPeriod_total hi'.ri v'.tokens
+  rw [h1'] at h1
+  cases h1
+  have hs1 : v1.sinfo d = some si := by rw [s1]; exact hs
+  have htf : v1.tokensFromShares sh = v'.tokensFromShares sh := by
+    simp only [VS.tokensFromShares, sf1.2.1, sf1.2.2]
+  apply calcRewards_fresh hs1
+  · rw [hheight]; exact hh
+  · rw [hstake, htf]; exact trunc_le_round v' sh
+  · intro e he
+    rw [e1, hsl] at he
+    have := hi.ri.eper e he
+    rcases hper with hp | hp <;> omega
+  · -- both records carry the cumulative ratio of the transfer's two period ends
+    have hA : v1.ratioAt si.period = v'.ratio si.period := by
+      unfold VS.ratioAt
+      rw [if_neg (i1.refs_info_pos hdn hs1), r1]
+      have : si.period ≠ v'.period := by rcases hper with hp | hp <;> omega
+      simp [setAt, this]
+    have hB : v1.ratioAt v'.period = v'.ratio (v.period + 1) := by
+      unfold VS.ratioAt
+      have e : v1.period - 1 = v'.period := by omega
+      rw [e] at f1
+      rw [if_neg (by rw [f1]; omega), r1]
+      simp only [setAt, if_true]
+      rw [curRatio_zero hcur, Nat.add_zero]
+      unfold VS.ratioAt
+      rw [if_neg hi'.ri.refs_cur_pos]
+      have : v'.period - 1 = v.period + 1 := by omega
+      rw [this]
+    rw [hA, hB]
+    rcases hper with hp | hp
+    · rw [hp]; exact hrat
+    · rw [hp]
+  · rcases hper with hp | hp <;> omega
+
 end FxVerif.Proofs.C11
